@@ -44,13 +44,14 @@ type outcome struct {
 
 // cmdSpec is one pipelined command of a round.
 type cmdSpec struct {
-	kind    string
-	arg     string   // mailbox / set text
-	nums    []uint32 // message numbers addressed (fetch/store)
-	out     outcome
-	data    []string // untagged response lines belonging to this command ("%TAG%" is replaced)
-	want    string   // expected data rendering
-	refused bool     // APPEND: literal refused with the tagged response
+	kind       string
+	arg        string   // mailbox / set text
+	nums       []uint32 // message numbers addressed (fetch/store)
+	out        outcome
+	data       []string // untagged response lines belonging to this command ("%TAG%" is replaced)
+	want       string   // expected data rendering
+	refused    bool     // APPEND: literal refused with the tagged response
+	listStatus bool     // LIST: RETURN (STATUS (MESSAGES))
 	// filled at run time
 	tag  string
 	wait func() (string, error)
@@ -197,15 +198,23 @@ func genRound(t *rapid.T, exists uint32) []*cmdSpec {
 		c := &cmdSpec{kind: kind, out: genOutcome(t, label)}
 		switch kind {
 		case "STATUS":
-			c.arg = rapid.SampledFrom([]string{"alpha", "beta", "gamma", "INBOX"}).Draw(t, label+".mbox")
-			if used["STATUS:"+c.arg] {
+			c.arg = rapid.SampledFrom([]string{"alpha", "beta", "gamma", "INBOX", "inbox", "InBox"}).Draw(t, label+".mbox")
+			canon := c.arg
+			if strings.EqualFold(canon, "INBOX") {
+				canon = "INBOX" // INBOX is case-insensitive; the server may answer in either spelling
+			}
+			if used["STATUS:"+canon] {
 				continue
 			}
-			used["STATUS:"+c.arg] = true
+			used["STATUS:"+canon] = true
 			msgs, unseen := rapid.IntRange(0, 50).Draw(t, label+".msgs"), rapid.IntRange(0, 9).Draw(t, label+".unseen")
 			if c.out.status == "OK" || rapid.Bool().Draw(t, label+".dataanyway") {
-				c.data = []string{fmt.Sprintf("* STATUS %s (MESSAGES %d UNSEEN %d)", c.arg, msgs, unseen)}
-				c.want = fmt.Sprintf("status{%s messages=%d unseen=%d}", c.arg, msgs, unseen)
+				wire := canon
+				if rapid.Bool().Draw(t, label+".echo") {
+					wire = c.arg
+				}
+				c.data = []string{fmt.Sprintf("* STATUS %s (MESSAGES %d UNSEEN %d)", wire, msgs, unseen)}
+				c.want = fmt.Sprintf("status{%s messages=%d unseen=%d}", canon, msgs, unseen)
 			} else {
 				c.want = "status{}"
 			}
@@ -220,14 +229,28 @@ func genRound(t *rapid.T, exists uint32) []*cmdSpec {
 			used[kind] = true
 			switch kind {
 			case "LIST":
+				// LIST, or LIST ... RETURN (STATUS (MESSAGES)): every mailbox is
+				// followed by its STATUS response unless it cannot be selected or
+				// the server drops it (RFC 5819 section 2 allows both)
+				c.listStatus = rapid.IntRange(0, 2).Draw(t, label+".liststatus") == 0
 				var names []string
-				for j, k := 0, rapid.IntRange(0, 3).Draw(t, label+".nlist"); j < k; j++ {
+				for j, k := 0, rapid.IntRange(0, 4).Draw(t, label+".nlist"); j < k; j++ {
 					nm := fmt.Sprintf("box%d", j)
 					if k := countKind(cmds, "LIST"); k > 0 {
 						nm = fmt.Sprintf("l%d-box%d", k, j)
 					}
+					attrs := rapid.SampledFrom([]string{"", "", `\HasChildren`, `\Noselect`}).Draw(t, label+".attrs")
+					c.data = append(c.data, fmt.Sprintf(`* LIST (%s) "/" %s`, attrs, nm))
+					if c.listStatus {
+						if attrs != `\Noselect` && rapid.IntRange(0, 3).Draw(t, label+".dropstatus") != 0 {
+							n := rapid.IntRange(0, 99).Draw(t, label+".lsmsgs")
+							c.data = append(c.data, fmt.Sprintf("* STATUS %s (MESSAGES %d)", nm, n))
+							nm += fmt.Sprintf("(messages=%d)", n)
+						} else {
+							nm += "(nostatus)"
+						}
+					}
 					names = append(names, nm)
-					c.data = append(c.data, fmt.Sprintf(`* LIST () "/" %s`, nm))
 				}
 				c.want = fmt.Sprintf("list%v", names)
 			case "SEARCH":
@@ -432,12 +455,24 @@ func (r *run) submit(c *cmdSpec) {
 			return fmt.Sprintf("status{%s messages=%d unseen=%d}", d.Mailbox, *d.NumMessages, *d.NumUnseen), err
 		}
 	case "LIST":
-		cmd := cl.List("", "*", nil)
+		var opts *imap.ListOptions
+		if c.listStatus {
+			opts = &imap.ListOptions{ReturnStatus: &imap.StatusOptions{NumMessages: true}}
+		}
+		cmd := cl.List("", "*", opts)
 		c.wait = func() (string, error) {
 			l, err := cmd.Collect()
 			var names []string
 			for _, d := range l {
-				names = append(names, d.Mailbox)
+				nm := d.Mailbox
+				if c.listStatus {
+					if d.Status != nil && d.Status.NumMessages != nil {
+						nm += fmt.Sprintf("(messages=%d)", *d.Status.NumMessages)
+					} else {
+						nm += "(nostatus)"
+					}
+				}
+				names = append(names, nm)
 			}
 			return fmt.Sprintf("list%v", names), err
 		}
@@ -714,6 +749,65 @@ func (r *run) selectMailbox(t *rapid.T, name string, reselect bool) {
 	r.checkMirror("after SELECT " + name)
 }
 
+// logoutRound: LOGOUT with 0-2 commands pipelined behind it. The server
+// processes LOGOUT first (commands are processed in order), says BYE, completes
+// LOGOUT and closes the connection; what was sent behind it is never answered.
+func (r *run) logoutRound(t *rapid.T) {
+	kinds := rapid.SliceOfN(rapid.SampledFrom([]string{"NOOP", "STATUS", "SELECT"}), 0, 2).Draw(t, "behind-logout")
+	lo := r.c.Logout()
+	var waits []func() error
+	for _, k := range kinds {
+		switch k {
+		case "NOOP":
+			cmd := r.c.Noop()
+			waits = append(waits, cmd.Wait)
+		case "STATUS":
+			cmd := r.c.Status("later", &imap.StatusOptions{NumMessages: true})
+			waits = append(waits, func() error { _, err := cmd.Wait(); return err })
+		case "SELECT":
+			cmd := r.c.Select("later", nil)
+			waits = append(waits, func() error { _, err := cmd.Wait(); return err })
+		}
+	}
+	var loTag string
+	for i := 0; i <= len(kinds); i++ {
+		cmd, err := r.s.ReadCommand()
+		if err != nil {
+			r.fail("logout round: reading command %d: %v", i, err)
+		}
+		r.log("C: %s", strings.TrimSpace(clip(string(cmd.Raw))))
+		if i == 0 {
+			if cmd.Name != "LOGOUT" {
+				r.fail("logout round: expected LOGOUT first, got %q", cmd.Raw)
+			}
+			loTag = cmd.Tag
+		}
+	}
+	r.send("* BYE logging out")
+	r.send(loTag + " OK LOGOUT completed")
+	r.s.Close()
+	r.log("S: <connection closed>")
+	r.m.state, r.m.selected = imap.ConnStateLogout, false
+	var err error
+	if werr := cs.Within(10*time.Second, "Logout.Wait", func() error { err = lo.Wait(); return nil }); werr != nil {
+		r.fail("logout round: Logout().Wait() did not return")
+	}
+	if err != nil {
+		r.fail("logout round: LOGOUT was answered OK but completed with %v", err)
+	}
+	for i, w := range waits {
+		var err error
+		if werr := cs.Within(10*time.Second, "Wait", func() error { err = w(); return nil }); werr != nil {
+			r.fail("logout round: Wait of %s (sent behind LOGOUT) did not return", kinds[i])
+		}
+		if err == nil {
+			r.fail("logout round: %s was sent behind LOGOUT and never answered (the server closed after completing LOGOUT), but it completed with success", kinds[i])
+		}
+	}
+	r.checkMirror("after LOGOUT was completed and the connection closed")
+	ev.Class(fmt.Sprintf("logout-round:behind=%d", len(kinds)))
+}
+
 func TestPropRouting(t *testing.T) {
 	rapid.Check(t, func(t *rapid.T) {
 		clientEnd, s := script.New()
@@ -774,6 +868,11 @@ func TestPropRouting(t *testing.T) {
 			}
 			o, u := r.round(t, i)
 			ooo, upd = ooo || o, upd || u
+		}
+		// sometimes the session ends with LOGOUT and commands pipelined behind it
+		// which the server never answers: BYE, the tagged OK of LOGOUT, close
+		if rapid.IntRange(0, 3).Draw(t, "logout-round") == 0 {
+			r.logoutRound(t)
 		}
 		// unilateral data must have reached the handlers, in order. FETCH
 		// handlers run in their own goroutines, so compare them as a multiset.
